@@ -4,21 +4,21 @@ import json, os
 HERE = os.path.dirname(os.path.dirname(os.path.abspath(__file__)))
 TECH = 'contract-based deductive verification: Verus discharges contracts spliced onto functions lifted mechanically from /repo on every run'
 CLAIMS = {
- 'C04': dict(text='Lexical kernel only: property names produced by raw_name_to_ts_field are identifier-like or correctly quoted/escaped string literals for every string; doc blocks are exactly one comment; the file layout is notice, imports, docs, `export` declaration, newline. Proved for all inputs by Verus on the lifted real text.',
+ 'C04': dict(text='Lexical kernel only: property names produced by raw_name_to_ts_field are identifier-like or correctly quoted/escaped string literals for every string; doc blocks are exactly one comment; the file layout is notice, imports, docs, `export` declaration, newline; the import block generate_imports writes is one `import type { A, B } from "spec";` line per specifier (unit gen_imports). Proved for all inputs by Verus on the lifted real text.',
              note='Not decided: that decl() itself parses as TypeScript, names interpolated inside generated format! templates (tag/content/variant literals), the `format` feature. Trusted: std string contracts, Unicode alphanumerics treated as TS identifier characters.'),
- 'C05': dict(text='Histories and inputs: merge() is proved to be sorted insertion of the whole new declaration (unit merge) plus the ascending rendering of the union of both import headers, each name once (unit merge_imports); the registry logic of export_and_merge is proved to skip already-exported types. Unbounded in file size and number of declarations.',
-             note='Not decided: thread interleavings (the Mutex argument is dropped by rewrite R6); declarations containing blank lines or the words `export type ` are outside the well-formedness hypothesis (known finding D7). Trusted: std string/collection contracts.'),
+ 'C05': dict(text='Histories and inputs: merge() is proved to be sorted insertion of the whole new declaration (unit merge) plus the ascending rendering of the union of both import headers, each name once (unit merge_imports); the registry logic of export_and_merge is proved to skip already-exported types, and over a ghost disk model: the first write of a process leaves exactly the generated text in the file, a later write replaces everything after the notice by merge(old file, new text), no other file changes. Unbounded in file size and number of declarations.',
+             note='Not decided: thread interleavings (the Mutex argument is dropped by rewrite R6); declarations containing blank lines or the words `export type ` are outside the well-formedness hypothesis (known finding D7). Trusted: std string/collection contracts, the disk model of File::create / OpenOptions / write_all / read_to_string / seek (spec/std_fs_model.rs), no concurrent writer.'),
  'C06': dict(text='Spelling independence: every export entry point reaches export_to with the canonical form norm(cwd ++ dir ++ output_path) of the target, so the registry key (and file) does not depend on how the directory is spelled or which entry point is used. Proved as call-site preconditions.',
              note='Not decided: independence from call order and from stale files as directory contents (needs a file-system model). Trusted: std::path contracts (unix), fixed working directory.'),
- 'C08': dict(text='For every pair of paths: absolute() computes norm(cwd ++ p); diff_paths() returns `..`s followed by the remaining components of the target, and resolving it against the base gives the target (proved with an induction over component sequences); import_path() returns exactly "./"-or-nothing + the rendering of that relative path with one `.ts` removed (+ `.js` iff import-esm); lemmas derive that the specifier starts with ./ or ../ and that re-adding .ts gives the rendering. Unbounded in depth.',
+ 'C08': dict(text='For every pair of paths: absolute() computes norm(cwd ++ p); diff_paths() returns `..`s followed by the remaining components of the target, and resolving it against the base gives the target (proved with an induction over component sequences); import_path() returns exactly "./"-or-nothing + the rendering of that relative path with one `.ts` removed (+ `.js` iff import-esm); lemmas derive that the specifier starts with ./ or ../ and that re-adding .ts gives the rendering; generate_imports lists every dependency that lives in another file under import_path(own file, base ++ its output path) and never the file itself (unit gen_imports). Unbounded in depth.',
              note='Trusted: std::path contracts for unix (components, join, parent, to_string_lossy rendering and its parse round trip), no Windows prefixes; hypotheses: the dependency file name ends in .ts and is not an ancestor directory of the importing file; `forward slashes only` assumes component names contain no backslash.'),
- 'C09': dict(text='Both renaming functions are proved equal to spec functions for every string and all eight rules; serde_derive\'s own apply_to_field/apply_to_variant (version from Cargo.lock) are lifted by the same lifter and proved equal to the same spec functions on serde\'s non-panicking domain, so ts-rs == serde for every identifier; the two call sites (field vs variant) are checked.',
+ 'C09': dict(text='Both renaming functions are proved equal to spec functions for every string and all eight rules; serde_derive\'s own apply_to_field/apply_to_variant (version from Cargo.lock) are lifted by the same lifter and proved equal to the same spec functions on serde\'s non-panicking domain, so ts-rs == serde for every identifier; the call sites in format_field / format_variant are checked: the rule is applied to the identifier without its r# prefix, an explicit rename wins.',
              note='Trusted: std str/char contracts (Unicode predicates uninterpreted outside ASCII), rule-name correspondence of the two rename_all parse tables, that serde uses these functions for wire names.'),
  'C10': dict(text='Precedence only: for all four attribute kinds and every field, from_attrs returns wins(ts, serde) (ts value if present, else serde value) with serde-compat on, and exactly the ts value with serde-compat off; proved for all payload values (opaque) on the lifted merge/from_attrs bodies, in both cfg variants.',
              note='Not decided: equivalence of the hand-written ts/serde key tables and inertness of unknown serde keys (syn parser programs; the parsers are opaque stubs). Trusted: Option::or contract, syn skeletons.'),
- 'C11': dict(text='Path agreement only: the path a type reports (default_output_path) normalises to the registry key / file location export_all writes, for every base directory spelling.',
-             note='Not decided: "creates exactly one file per location and touches nothing else" (file-system frame over a generated dependency visitor).'),
- 'C13': dict(text='Output-ordering mechanisms of merge() only: declarations are placed by sorted insertion and the import block is proved to be the rendering, in ascending order, of the set of (path, name) pairs whatever their arrival order (units merge, merge_imports).',
+ 'C11': dict(text='Path agreement and bookkeeping: the path a type reports (default_output_path) normalises to the registry key / file location export_all writes, for every base directory spelling; export_and_merge changes no file but its own (ghost disk model); export_recursive visits the dependencies of every new type; Dependencies::push contributes the type and its generic arguments, append_from its dependencies.',
+             note='Not decided: the generated visit_dependencies bodies (quote! templates) and therefore "exactly one file per reachable type".'),
+ 'C13': dict(text='Output-ordering mechanisms of merge() only: declarations are placed by sorted insertion and the import block is proved to be the rendering, in ascending order, of the set of (path, name) pairs whatever their arrival order (units merge, merge_imports); generate_imports renders its BTreeMap/BTreeSet in ascending order (unit gen_imports).',
              note='Not decided: hash-seed independence of the derive macro across compilations, test scheduling.'),
  'C15': dict(text='Containment and placement: parse_docs renders a doc block that is exactly one comment for every doc text (no `*/` can end it early); FieldAttr::merge drops docs of flattened fields; from_attrs takes docs only from doc attributes; generate_decl places the block immediately before `export`.',
              note='Not decided: placement inside generated format! templates; variant docs (not emitted). Known finding D7 for merged files with blank lines inside doc blocks.'),
@@ -30,7 +30,7 @@ CLAIMS = {
 NA = {
  'C01': 'semantics of generated code vs serde_json output and a TypeScript type semantics: no function in /repo computes it; the token-stream templates are outside Verus single-file reach (syn/quote) and Kani cannot compile syn values (ICE). Sub-mechanisms are decided under C09, C10, C04.',
  'C02': 'converse inclusion of C01; additionally needs serde\'s Deserialize semantics as a spec artefact; no contract in reach can express it.',
- 'C03': 'closure of a dependency graph whose edges are generated per type (visit_dependencies bodies emitted by the macro); generate_imports starts with an iterator/closure chain over T: TS statics that Verus cannot take. Its path arithmetic is decided under C08.',
+ 'C03': 'closure of a dependency graph whose edges are generated per type (visit_dependencies bodies emitted by the macro); whether the visitor reports exactly the names that occur in the declaration is a property of quote! templates no contract here reaches. The runtime half is decided elsewhere: generate_imports (one line per other file, never the file itself, specifier = import_path of the dependency file) under C04/C08/C13, Dependencies::push/append_from under C11.',
  'C07': 'parametricity of generated decl() code that re-instantiates the type with dummy structs; no runtime function in /repo has the declaration text as its result.',
  'C12': 'every built-in impl is a constant or a one-line format!; a contract would restate the table, and the statement needs serde\'s serializer and TypeScript semantics as spec artefacts.',
  'C14': 'relational property between two generated programs (inline/flatten/as); the rewriting sits inside quote! templates and syn::Type walks, outside the verifier\'s reach.',
